@@ -352,9 +352,11 @@ pub fn scenarios(tier: Tier) -> Vec<NetScenario> {
         let mut c = SimCfg::base("token with 32 addresses, only the last one answers, timeout=1s", vec![cl]);
         c.server_addrs = (0..32).map(server_addr).collect();
         c.alive = (0..32).map(|k| k == 0).collect();
-        c.fault_from = 150;
-        c.horizon = 165;
-        c.tail = 16;
+        // the client reaches the last address at tick 154; the 1 s time-out (4 ticks) must not be exhaustible by
+        // the deviation budget, so faults are confined to three ticks
+        c.fault_from = 154;
+        c.horizon = 157;
+        c.tail = 20;
         c.fates = vec![NFate::Ok, NFate::Drop];
         v.push(c);
     }
